@@ -332,6 +332,8 @@ pub fn plan(tier: Tier) -> Plan {
       Src::Create(vec![N(0), C]),
       Src::Empty,
       Src::Throw(E::E1),
+      // a producer that asks its subscriber is_finished() before every item
+      Src::CreatePolling(3),
     ] {
       for cut in [0usize, 1, 2] {
         jobs.push(status_cut_job(src.clone(), cut));
